@@ -18,6 +18,7 @@ Y_VALUES = [2000 + (i % 4) * 5 for i in range(12)]  # t.y (4 groups)
 S_VALUES = ["v%d" % (3000 + 7 * i) for i in range(12)]  # t.s
 U_ROWS = [(i + 1, (i % 12) + 1, 1000 + 83 * ((i * 5) % 12)) for i in range(9)]  # u(id, tid, v)
 
+ESC_COLS = ["my col", "a.b", "pct%", "br[0]", "c:d", "(p)"]
 WEIRD_NAMES = ["a.b", "p%q", "x[1]", "m n", "c:d", "(z)", "k.l.m", "q]", "%(w)s", "sp ace.dot"]
 PLAIN_NAMES = ["alpha", "beta", "g1", "Delta", "eps_0", "z9"]
 
@@ -237,7 +238,7 @@ def gen_stmt_spec(rng, cfg=None, kinds=None):
             if nm:
                 shared.append([nm, al.fresh_int()])
     cfg["shared"] = shared
-    kinds = kinds or ["select"] * 10 + ["group"] * 2 + ["union"] * 2 + ["insert"] * 3 + ["update"] * 3 + ["delete"] * 2 + ["insertmany"] * 2 + ["insert_select"]
+    kinds = kinds or ["select"] * 10 + ["group"] * 2 + ["union"] * 2 + ["insert"] * 3 + ["update"] * 3 + ["delete"] * 2 + ["insertmany"] * 2 + ["insertmany_esc"] * 2 + ["insert_select"]
     k = rng.choice(kinds)
     if k == "select":
         sp = gen_select(rng, al, cfg)
@@ -277,6 +278,20 @@ def gen_stmt_spec(rng, cfg=None, kinds=None):
             "sval": al.strval() if rng.random() < 0.5 else None,
             "returning": rng.random() < 0.6,
             "ret_bind": al.fresh_int() if rng.random() < 0.5 else None,
+        }
+    elif k == "insertmany_esc":
+        cols = [c for c in ESC_COLS if rng.random() < 0.6] or [rng.choice(ESC_COLS)]
+        if rng.random() < 0.5:
+            cols.append("plain")
+        n = rng.randint(2, 7)
+        base = 300 + rng.randint(0, 50)
+        sp = {
+            "kind": "insertmany_esc",
+            "cols": cols,
+            "rows": [dict({"id": base + i}, **{c: al.fresh_int() for c in cols}) for i in range(n)],
+            "returning": rng.random() < 0.7,
+            "page": rng.choice([None, None, 1, 2, 3]),
+            "single": rng.random() < 0.15,
         }
     elif k == "insert_select":
         sp = {"kind": "insert_select", "off": al.fresh_int(), "where": gen_pred(rng, al, cfg), "add": gen_bind(rng, al, cfg, "i")}
@@ -356,7 +371,9 @@ def reroll_spec(sp, rng):
                     o[k] = newv(v)
                 elif k == "rows":
                     for r in v:
-                        r["bx"], r["by"] = rng.randint(4000, 8999), rng.randint(4000, 8999)
+                        for kk in r:
+                            if kk != "id":
+                                r[kk] = rng.randint(4000, 8999)
                 elif k == "shared":
                     for it in v:
                         it[1] = rng.randint(4000, 8999)
@@ -398,6 +415,14 @@ class Fixture:
             sa.Column("id", sa.Integer, primary_key=True),
             sa.Column("tid", sa.Integer),
             sa.Column("v", sa.Integer),
+        )
+        # columns whose bind names need escaping (executemany / insertmanyvalues paths)
+        self.wt = sa.Table(
+            "wt",
+            self.md,
+            sa.Column("id", sa.Integer, primary_key=True),
+            *[sa.Column(n, sa.Integer) for n in ESC_COLS],
+            sa.Column("plain", sa.Integer),
         )
 
     def mapped(self):
@@ -610,6 +635,13 @@ def build_stmt(fx, sp):
                 rc.append((t.c.y + sa.bindparam("rb", sp["ret_bind"])).label("yr"))
             st = st.returning(*rc)
         return st, [dict(r) for r in sp["rows"]]
+    if k == "insertmany_esc":
+        wt = fx.wt
+        st = wt.insert()
+        if sp.get("returning"):
+            st = st.returning(wt.c.id, *[wt.c[c] for c in sp["cols"]])
+        rows = [dict(r) for r in sp["rows"]]
+        return st, (rows[0] if sp.get("single") else rows)
     if k == "insert_select":
         sel = sa.select((t.c.id + sp["off"]).label("id"), (t.c.x + ex(sp["add"])).label("x"), t.c.y, t.c.s).where(ex(sp["where"]))
         return t.insert().from_select(["id", "x", "y", "s"], sel), None
